@@ -10,6 +10,11 @@ LIM = 200000
 SCHEME = {"2w": 2, "3w": 3, "4w": 4}
 
 
+def umisc(rng, T):
+    """miscellaneous random effects the model may carry next to the marker effects (no part of any progeny variance)"""
+    return None if rng.random() < 0.5 else np.array([[rng.randrange(-9, 10) for _ in range(T)] for _ in range(rng.randrange(1, 4))], dtype=float)
+
+
 def tables(ctx, thorough):
     """TLC pushes the genotype distribution through the pedigree and emits the joint-origin tables"""
     tabs = []
@@ -91,7 +96,7 @@ def one_case(cid, rng, scheme, s, genic, cov, thorough):
                                    taxa_grp=np.arange(n, dtype="int64"), vrnt_chrgrp=chrgrp,
                                    vrnt_phypos=np.arange(1, L + 1, dtype="int64"), vrnt_genpos=genpos, vrnt_xoprob=np.full(L, 0.1))
     pg.group_vrnt()
-    gm = DenseAdditiveLinearGenomicModel(beta=np.zeros((1, T)), u_misc=None, u_a=u, trait=np.array(["t%d" % t for t in range(T)], dtype=object))
+    gm = DenseAdditiveLinearGenomicModel(beta=np.zeros((1, T)), u_misc=umisc(rng, T), u_a=u, trait=np.array(["t%d" % t for t in range(T)], dtype=object))
     way = {"2w": "TwoWay", "3w": "ThreeWay", "4w": "FourWay"}[scheme]
     if cov:
         name = "Dense%sDHAdditiveProgeny%sCovarianceMatrix" % (way, "Genic" if genic else "Genetic"); pkg = "pybrops.model.pcvmat."
@@ -167,7 +172,7 @@ def dihybrid_case(cid, rng, s, genic, cov=False):
     pg = DensePhasedGenotypeMatrix(ph, taxa=np.array(["h%d" % i for i in range(n)], dtype=object), taxa_grp=np.arange(n, dtype="int64"),
                                    vrnt_chrgrp=chrgrp, vrnt_phypos=np.arange(1, L + 1, dtype="int64"), vrnt_genpos=genpos, vrnt_xoprob=np.full(L, 0.1))
     pg.group_vrnt()
-    gm = DenseAdditiveLinearGenomicModel(beta=np.zeros((1, T)), u_misc=None, u_a=u, trait=np.array(["t%d" % t for t in range(T)], dtype=object))
+    gm = DenseAdditiveLinearGenomicModel(beta=np.zeros((1, T)), u_misc=umisc(rng, T), u_a=u, trait=np.array(["t%d" % t for t in range(T)], dtype=object))
     if cov:
         name = "DenseDihybridDHAdditiveProgenyGeneticCovarianceMatrix"; pkg = "pybrops.model.pcvmat."
     else:
@@ -224,7 +229,7 @@ def uc_case(cid, rng, s, scheme="2w"):
                                    taxa_grp=np.arange(n, dtype="int64"), vrnt_chrgrp=chrgrp, vrnt_phypos=np.arange(1, L + 1, dtype="int64"),
                                    vrnt_genpos=np.array([x for ch in chroms for x in ch], dtype=float), vrnt_xoprob=np.full(L, 0.1))
     pg.group_vrnt()
-    gm = DenseAdditiveLinearGenomicModel(beta=np.array([[3.0] * T]), u_misc=None, u_a=u, trait=np.array(["t%d" % t for t in range(T)], dtype=object))
+    gm = DenseAdditiveLinearGenomicModel(beta=np.array([[3.0] * T]), u_misc=umisc(rng, T), u_a=u, trait=np.array(["t%d" % t for t in range(T)], dtype=object))
     c = {"id": cid, "scheme": scheme, "K": K, "D": D, "s": s, "genic": False, "A": A.astype(int).tolist(), "u": u.astype(int).tolist(),
          "rhoM": rho_matrix(chroms), "err": None, "cls": "UsefulnessCriterionSelectionProblem._calc_uc[%s]" % scheme, "mem": "-", "cov": False, "labels": True}
     try:
